@@ -161,6 +161,9 @@ def c11(pid, tier, replay):
         else:
             res.violation("trace rejected by the specification: " + (v["r"]["error"] or "not all events consumed")[:400],
                           dict(tlc_out=v["r"]["out"][-2000:]))
+    if not replay:
+        from . import p_ctrt
+        p_ctrt.run_lex_flags(res, "C11", tier)
     for i in insts[:2]:
         res.sample(dict(id=i["id"], l=i["l"], flags_in_force=i["eff"]))
     res.assumptions += ["the regex crate decides what a regular expression matches; the documents are generated valid"]
@@ -175,7 +178,10 @@ HEADERS = ["%grmtools{yacckind: Grmtools}", "%grmtools{yacckind: Original(YaccOr
 def mutants(text, rng, k):
     """near-valid variants of a valid specification"""
     out = []
-    specials = list("{}[]()'\"<>%|;:,*!\\/") + ["é", "\u4e16", "\U0001F600", "\n", "\r\n", "\r", "\t", "%%", "/*", "*/", "//", "%grmtools{", "18446744073709551616", "99999999999999999999999"]
+    specials = list("{}[]()'\"<>%|;:,*!\\/") + ["é", "\u4e16", "\U0001F600", "\n", "\r\n", "\r", "\t", "%%", "/*", "*/", "//", "%grmtools{", "18446744073709551616", "99999999999999999999999",
+                                                  # Unicode Pattern_White_Space beyond ASCII, also escaped; other odd blanks
+                                                  "\u0085", "\u200e", "\u200f", "\u2028", "\u2029", "\x0b", "\x0c", "\u00a0", "\ufeff",
+                                                  "\\\u200e", "\\\u0085", "\\ ", "\\\\", "\\\t"]
     n = len(text)
     for _ in range(k):
         op = rng.randrange(9)
@@ -251,6 +257,14 @@ def c12(pid, tier, replay):
         for base in HEADERS[:3] + [genyacc.render(genyacc.gen_doc(rng), rng)[0] for _ in range(3)]:
             for i in range(len(base) + 1):
                 add("header" if base.lstrip().startswith("%grmtools") else "yacc_grmtools", base[:i])
+        # multi-byte characters (plain and escaped) at every offset of a few specifications
+        lbases = ["%%\na 'x'\n[ ]+ ;\n", "%x S\n%%\n<S>a+ <INITIAL>'t'\nb\\  \"u\"\n"] + \
+                 [genlex.render_lsrc(genlex.gen_lsrc(rng), rng)[0] for _ in range(4 if thorough else 1)]
+        ybases = ["%start S\n%token a\n%%\nS: a 'b' { $1 } | ;\n"] + [genyacc.render(genyacc.gen_doc(rng), rng)[0] for _ in range(4 if thorough else 1)]
+        for base, entry in [(b, "lex") for b in lbases] + [(b, "yacc_grmtools") for b in ybases] + [(HEADERS[2], "header")]:
+            for ch in ["é", "\u200e", "\\\u0085", "\\\u200f", "\U0001F600"]:
+                for i in range(len(base) + 1):
+                    add(entry, base[:i] + ch + base[i:])
     job = os.path.join(res.wd, "job.json")
     trace = os.path.join(res.wd, "trace.ndjson")
     with open(job, "w") as f:
